@@ -195,6 +195,13 @@ func init() {
 				for v := 0; v < 5; v++ {
 					attestCaseVar(c, "bind.otherKey.tpm", "tpm", []string{"tpm.extraDataShort"}, false, v)
 				}
+				// the other formats' binding values likewise: a proper prefix of (or nothing in place of, or more than) the Apple nonce, the
+				// SafetyNet nonce, the Keymaster attestation challenge
+				for _, fd := range [][2]string{{"apple", "apple.nonceShort"}, {"android-safetynet", "sn.nonceShort"}, {"android-key", "ak.challengeShort"}} {
+					for v := 0; v < 2; v++ {
+						attestCase(c, "bind.short."+fd[0], fd[0], []string{fd[1]}, v == 1)
+					}
+				}
 				// the statement presents x5c[0]; the signature was made by the key of a LATER chain element (honest leaf placed second)
 				for _, f := range []string{"packed-x5c", "tpm", "android-key", "apple"} {
 					attestCase(c, "bind.otherKey."+f, f, []string{"x5c.leafSecond"}, false)
